@@ -125,7 +125,7 @@ def scaled_lto_pm():
     return ns
 
 
-def evaluate(opts, traj, fuel, pm, fuel_name='conventional_jetA', reload=True):
+def evaluate(opts, traj, fuel, pm, fuel_name='conventional_jetA', reload=True, spell=None):
     """One evaluation on the real code under a freshly loaded configuration (reload=False: under
     the configuration that is already active). Returns ('ok', Emissions) or ('raise', exception)."""
     from vf import env
@@ -133,6 +133,9 @@ def evaluate(opts, traj, fuel, pm, fuel_name='conventional_jetA', reload=True):
     from AEIC.emissions import compute_emissions
 
     em = dict(opts)
+    if spell == 'upper':
+        # option values are case-insensitive: the same configuration spelled in capitals
+        em = {k: (v.upper() if isinstance(v, str) else v) for k, v in em.items()}
     em['fuel'] = fuel_name
     try:
         if reload:
